@@ -61,7 +61,12 @@ class PathWorld:
         self.shas = {}
         self.counter = 0
         os.makedirs(root, exist_ok=True)
-        self.paths = {i: os.path.join(root, f"p{i}_{seed}.tdf") for i in range(1, NP + 1)}
+        # the paths live in two folders; in every third history targets are given RELATIVE to the
+        # working directory (which is neither folder)
+        for sub in ("a", "b"):
+            os.makedirs(os.path.join(root, sub), exist_ok=True)
+        self.paths = {i: os.path.join(root, "ab"[i % 2], f"p{i}_{seed}.tdf") for i in range(1, NP + 1)}
+        self.relative = seed % 3 == 1
         if seed % 2:
             # the third path is the first one without its extension: three different paths all the same
             self.paths[3] = self.paths[1][:-4]
@@ -119,18 +124,37 @@ class PathWorld:
             out.append(o)
         return out
 
+    def target(self, i):
+        """a path as it is handed to new() / copy(): absolute, or relative to the working directory"""
+        return os.path.relpath(self.paths[i], self.root) if self.relative else self.paths[i]
+
     def execute(self, c):
+        cwd = os.getcwd()
+        os.chdir(self.root)
+        try:
+            return self._execute(c)
+        finally:
+            os.chdir(cwd)
+
+    def _execute(self, c):
         op = c["op"]
         p = self.paths[c["p"]]
         res = "ok"
         try:
             with session.guarded():
                 if op == "new":
-                    t = Tdf.new(p)
+                    t = Tdf.new(self.target(c["p"]))
                     if not isinstance(t, Tdf):
                         raise TypeError("Tdf.new did not return a Tdf")
+                    # the object new() returns is like any other: read-only until allow_write() is called
+                    # (a mutation that gets through here shows in the file, which must be the empty container)
+                    try:
+                        with t as f:
+                            f.add_block(blocks.make_block(16, 1, 31337))
+                    except Exception:  # noqa: BLE001
+                        pass
                 elif op == "copy":
-                    t = Tdf(p).copy(self.paths[c["q"]])
+                    t = Tdf(p).copy(self.target(c["q"]))
                     if not isinstance(t, Tdf):
                         raise TypeError("copy did not return a Tdf")
                 elif op == "open":
@@ -169,7 +193,7 @@ class PathWorld:
                     blk = blocks.make_block(16, 1 + self.counter % 3, 1000 + self.counter, 1500000000, 1500000100)
                     with Tdf(p).allow_write() as f:
                         f.events = blk
-                        f.copy(self.paths[c["q"]])
+                        f.copy(self.target(c["q"]))
                 elif op == "mutate":
                     self.counter += 1
                     blk = blocks.make_block(16, 1 + self.counter % 3, 1000 + self.counter, 1500000000, 1500000100)
